@@ -1,16 +1,16 @@
 #!/bin/bash
 # Development helper: run the property's quick check on seeded change <PROP> <k>, record the outcome next to the patch.
-prop=$1; k=$2; out=/tmp/mut/${prop}_out
-/verif/harness/tools/mutant.sh "$prop" /tmp/mut/$prop "$out/patch_$k.diff" quick > "$out/detect_$k.txt" 2>&1
-python3 - "$prop" "$k" <<'PY'
+prop=$1; k=$2; root=${MUTROOT:-/tmp/mut}; out=$root/${prop}_out
+/verif/harness/tools/mutant.sh "$prop" $root/$prop "$out/patch_$k.diff" quick > "$out/detect_$k.txt" 2>&1
+python3 - "$prop" "$k" "$root" <<'PY'
 import json, re, sys
-prop, k = sys.argv[1], sys.argv[2]
-txt = open(f"/tmp/mut/{prop}_out/detect_{k}.txt").read()
+prop, k, root = sys.argv[1], sys.argv[2], sys.argv[3]
+txt = open(f"{root}/{prop}_out/detect_{k}.txt").read()
 m = re.search(r"^exit=(\d+)", txt, re.M)
 lines = [l[:300] for l in txt.splitlines() if l.strip()]
 json.dump({"check": f"./check {prop} --tier quick", "exit": int(m.group(1)) if m else -1,
            "violation_lines": [l for l in lines if l.startswith("VIOLATION")][:3],
            "first_reports": [l for l in lines if "violation:" in l][:3]},
-          open(f"/tmp/mut/{prop}_out/detect_{k}.json", "w"), indent=1)
+          open(f"{root}/{prop}_out/detect_{k}.json", "w"), indent=1)
 print(f"{prop}-{k} exit={m.group(1) if m else '?'}")
 PY
